@@ -74,24 +74,25 @@ Props/C14.lean and a repro script under /var/tmp/imp-C13C14/c14/repro):
   directory-contents-replaced-below-kept-children   apply_deletions fails
       with ENOTEMPTY after everything was changed; the children are gone.
 
-Mutants this was built against (scratch worktree; all caught, o = by the
-oracle with a concrete input, t = by the correspondence): git
+Mutants (scratch worktree; o = caught by the oracle with a concrete input,
+t = by the correspondence).  Run against this version: git
 _generate_index_changes not re-keying the children of moved directories (o,t);
 delta parent file id taken from the tree parent (o,t); `range(10)` ->
-`range(2)` in resolve_conflicts (o,t; `range(1)`: also T1); resolve_duplicate
-moving the renamed entry instead of the other one (t); _apply_insertions
-skipping the rename from limbo for some ids (o); _parent_type_conflicts
+`range(2)` in resolve_conflicts (o,t); resolve_duplicate moving the renamed
+entry instead of the other one (t); _apply_insertions skipping the rename
+from limbo for some ids without new contents (o); _parent_type_conflicts
 accepting symlink parents (o,t); PreviewTree.is_executable reading at the
-preview path (T1 source_flags_fixed, o,t); and from the first version:
-"duplicate" dropped from CONFLICT_RESOLVERS (t,T1); final_kind ignoring
-_removed_contents (o,t); _inventory_altered ignoring new file ids (o,t);
-_duplicate_entries counting removed unversioned entries (t); _apply_insertions
-skipping _set_executability (o,t); apply() without _check_malformed (o);
-_parent_loops testing `in seen` before `== trans_id` (o,t); PreviewTree.kind
-from the tree kind for removed contents (o,t); resolve_missing_parent keeping
-the deletion of a directory with unversioned children (t).  Harmless rewrites
-that stay clean: conflict_pass collecting into a list; by_parent with
-setdefault.  The four proposed repairs applied together
+preview path (o, and T1: source_flags_fixed fails, theorems 47/51); harmless
+and clean: by_parent with setdefault.  Run against the first version of the
+check (not repeated): `range(1)` (o,t,T1); "duplicate" dropped from
+CONFLICT_RESOLVERS (t,T1); final_kind ignoring _removed_contents (o,t);
+_inventory_altered ignoring new file ids (o,t); _duplicate_entries counting
+removed unversioned entries (t); _apply_insertions skipping
+_set_executability (o,t); apply() without _check_malformed (o); _parent_loops
+testing `in seen` before `== trans_id` (o,t); PreviewTree.kind from the tree
+kind for removed contents (o,t); resolve_missing_parent keeping the deletion
+of a directory with unversioned children (t); harmless: conflict_pass
+collecting into a list.  The four proposed repairs applied together
 (/var/tmp/imp-C13C14/c14/c14-resolver-and-delta-fixes.patch) leave the check
 with mismatches=0 and only the two unrepaired families.
 """
